@@ -1,0 +1,22 @@
+//go:build verif
+
+package sort2
+
+// SortPerm[b][i] is the (ghost) position, before the most recent sort of the backing array b, of the element now at
+// position i; SortInv is its inverse. Both are written only by Slice.
+//@ ghost var SortPerm map[Ref]map[int]int
+//@ ghost var SortInv map[Ref]map[int]int
+
+// Slice sorts x in place (A-SORT: sort.Slice permutes x so that no later element is less than an earlier one,
+// provided less is a strict weak order on the elements, which is an obligation at every call site).
+//@ func Slice
+//@ trusted
+//@ requires [less-callable] forall(a, int, forall(b, int, implies(0 <= a && a < len(x) && 0 <= b && b < len(x), callpre(less, x[a], x[b]))))
+//@ requires [less-irreflexive] forall(a, T, !call(less, a, a))
+//@ requires [less-transitive] forall(a, T, forall(b, T, forall(c, T, implies(call(less, a, b) && call(less, b, c), call(less, a, c)))))
+//@ requires [less-incomparability-transitive] forall(a, T, forall(b, T, forall(c, T, implies(!call(less, a, b) && !call(less, b, a) && !call(less, b, c) && !call(less, c, b), !call(less, a, c) && !call(less, c, a)))))
+//@ assigns elems(x), tags(x), SortPerm[backing(x)], SortInv[backing(x)]
+//@ ensures [permuted] forall(i, int, implies(0 <= i && i < len(x), 0 <= SortPerm[backing(x)][i] && SortPerm[backing(x)][i] < len(x) && x[i] == oldat(x, SortPerm[backing(x)][i]) && tag(x, i) == oldtag(x, SortPerm[backing(x)][i])), tag(x, i))
+//@ ensures [perm-bijective] forall(k, int, implies(0 <= k && k < len(x), 0 <= SortInv[backing(x)][k] && SortInv[backing(x)][k] < len(x) && SortPerm[backing(x)][SortInv[backing(x)][k]] == k))
+//@ ensures [perm-injective] forall(i, int, forall(j, int, implies(0 <= i && i < j && j < len(x), SortPerm[backing(x)][i] != SortPerm[backing(x)][j])))
+//@ ensures [sorted] forall(i, int, forall(j, int, implies(0 <= i && i < j && j < len(x), !call(less, x[j], x[i])), tag(x, j)), tag(x, i))
